@@ -129,8 +129,10 @@ def own_variants():
     out = []
     for kind in ('claim', 'update', 'support_data'):
         for payload in OWN_CLAIM_PAYLOADS:
-            for nm in ('ascii', 'nonutf8'):
-                out.append([kind, payload, nm])
+            out.append([kind, payload, 'ascii'])
+        # the name is stored independently of the payload: one factor at a time (a decodable and an
+        # undecodable payload under the odd name)
+        out += [[kind, 'valid_claim', 'nonutf8'], [kind, 'empty', 'nonutf8']]
     out += [['support', 'none', nm] for nm in ('ascii', 'nonutf8')]
     out += [['purchase', payload, 'ascii'] for payload in OWN_PURCHASE_PAYLOADS]
     return out
@@ -166,6 +168,9 @@ def third_scripts():
         'return_data': ER.op_return(b'hello'),                 # known template
         'purchase_data': ER.op_return(purchase),               # OP_RETURN carrying a purchase (placed at position 1)
         'other_claim': ER.claim_name_script(b'theirs', claim, ER.p2pkh(THIRD_H160)),   # somebody else's claim
+        # somebody else's claim with a non-UTF-8 name and an undecodable payload (its row is saved when an input
+        # of the transaction is ours)
+        'other_claim_odd': ER.claim_name_script(b'\xff\xfetheirs', b'{"ver": "9.9"}', ER.p2pkh(THIRD_H160)),
         'empty': b'',                                          # empty script
         'multisig': ER.bare_multisig_1of2(PK1, PK2),           # standard Bitcoin script, no lbry template
         'return_2push': ER.op_return(b'a', b'b'),              # OP_RETURN with two pushes: no lbry template
@@ -176,7 +181,7 @@ def third_scripts():
     }
 
 
-THIRD_KINDS = ['p2pkh', 'p2sh', 'p2pk', 'segwit0', 'return_data', 'purchase_data', 'other_claim', 'empty',
+THIRD_KINDS = ['p2pkh', 'p2sh', 'p2pk', 'segwit0', 'return_data', 'purchase_data', 'other_claim', 'other_claim_odd', 'empty',
                'multisig', 'return_2push', 'return_bare', 'trunc_direct', 'trunc_pushdata2', 'trunc_p2pkh']
 # kinds the reference classifies as non-standard / unparseable (used in violation signatures only)
 UNPARSEABLE = {'multisig', 'return_2push', 'return_bare', 'trunc_direct', 'trunc_pushdata2', 'trunc_p2pkh'}
